@@ -1,1 +1,64 @@
-fn main() {}
+//! Miniature of the C19 workload for Miri (UB + data-race interpreter): 4 threads released together
+//! draw random tables of several sizes through rand's thread-local generator; every draw goes through
+//! the well-formedness and word-independence monitors.  Miri reports undefined behaviour or a data
+//! race reachable through `random()` by aborting with an error.
+
+use std::sync::{Arc, Barrier};
+
+use volute::{Lut, Lut0, Lut3, Lut6, Lut7, Lut9};
+
+fn well_formed(n: usize, b: &[u64]) -> bool {
+    let size = 1usize << n;
+    b.len() == std::cmp::max(1, size / 64) && (size >= 64 || b[0] >> size == 0)
+}
+
+fn main() {
+    let threads = 4;
+    let barrier = Arc::new(Barrier::new(threads));
+    let handles: Vec<_> = (0..threads)
+        .map(|t| {
+            let b = barrier.clone();
+            std::thread::spawn(move || {
+                b.wait();
+                let mut draws = 0usize;
+                let mut firsts: Vec<Vec<u64>> = Vec::new();
+                for round in 0..3 {
+                    for n in [0usize, 1, 3, 5, 6, 7, 9] {
+                        let l = Lut::random(n);
+                        assert!(well_formed(n, l.blocks()), "malformed Lut::random({})", n);
+                        if n >= 7 {
+                            let w = l.blocks();
+                            assert!(!w.windows(2).all(|p| p[0] == p[1]), "all words equal");
+                        }
+                        if round == 0 && n == 9 {
+                            firsts.push(l.blocks().to_vec());
+                        }
+                        draws += 1;
+                    }
+                    assert!(well_formed(0, Lut0::random().blocks()));
+                    assert!(well_formed(3, Lut3::random().blocks()));
+                    assert!(well_formed(6, Lut6::random().blocks()));
+                    let l7 = Lut7::random();
+                    assert!(well_formed(7, l7.blocks()) && l7.blocks()[0] != l7.blocks()[1]);
+                    assert!(well_formed(9, Lut9::random().blocks()));
+                    draws += 5;
+                }
+                (t, draws, firsts)
+            })
+        })
+        .collect();
+    let mut total = 0;
+    let mut all_firsts = Vec::new();
+    for h in handles {
+        let (_, d, f) = h.join().unwrap();
+        total += d;
+        all_firsts.extend(f);
+    }
+    // threads are independent: the first 512-bit draws of the threads are pairwise distinct
+    for i in 0..all_firsts.len() {
+        for j in (i + 1)..all_firsts.len() {
+            assert!(all_firsts[i] != all_firsts[j], "two threads drew the same table");
+        }
+    }
+    println!("MIRI-OK draws={} threads={}", total, threads);
+}
